@@ -108,9 +108,14 @@ func VerifInstall(process source.Source) *VerifLogger {
 // loggers.Factory; what that logger prints goes through fmt.Print/Println,
 // which a harness replaces to observe the terminal.
 func VerifInstallReal(process source.Source, loggerName string) {
+	VerifInstallRealLevel(process, loggerName, "warn")
+}
+
+// VerifInstallRealLevel: the same with a log level (an SSH-mode client runs at "info").
+func VerifInstallRealLevel(process source.Source, loggerName, level string) {
 	VerifInstall(process)
 	config.Common.Logger = loggerName
-	config.Common.LogLevel = "warn"
+	config.Common.LogLevel = level
 	if len(os.Args) == 0 {
 		os.Args = []string{"dtail"}
 	}
